@@ -2,8 +2,72 @@
 #include "net.h"
 #include "dlref.h"
 #include <algorithm>
+#include <atomic>
+#include <thread>
 
 using namespace net;
+
+// ---- C20: parallel pivoting (PARALLELIZE builds; hook H4) -----------------------------------------------------------------
+namespace par
+{
+  std::atomic<uint64_t> sched_state{0};
+  std::atomic<long> task_starts{0}, task_ends{0}, perturbations{0};
+  uint64_t sched_seed = 0;
+  bool perturb = false;
+  std::vector<std::string> failures; // filled from the thread that calls pivot (after join)
+  long pivots = 0, pivots_multi = 0, max_tasks = 0;
+
+  void on_sched(void *, int point)
+  {
+    if (point == 0) task_starts.fetch_add(1);
+    if (point == 2) task_ends.fetch_add(1);
+    if (!perturb) return;
+    uint64_t x = sched_state.fetch_add(0x9E3779B97F4A7C15ull) ^ sched_seed;
+    x ^= x >> 31; x *= 0xBF58476D1CE4E5B9ull; x ^= x >> 29;
+    unsigned r = (unsigned)(x % 8);
+    if (r == 0) { std::this_thread::yield(); perturbations.fetch_add(1); }
+    else if (r == 1) { for (volatile int i = 0; i < 2000; ++i) {} perturbations.fetch_add(1); }
+    else if (r == 2) { std::this_thread::sleep_for(std::chrono::microseconds(50)); perturbations.fetch_add(1); }
+  }
+#ifdef PARALLELIZE
+  qx::L toL(const smt::lin &l) { return net::Net::fromLin(l); }
+  void on_pivot(void *, const void *pi)
+  {
+    const auto &info = *static_cast<const smt::lra_theory::verif_pivot_info *>(pi);
+    ++pivots;
+    if (info.before.size() >= 2) ++pivots_multi;
+    max_tasks = std::max<long>(max_tasks, (long)info.before.size());
+    // join() returned: every task that started must have ended
+    long st = task_starts.exchange(0), en = task_ends.exchange(0);
+    if (st != en || st != (long)info.before.size())
+      failures.push_back("after join(): " + std::to_string(st) + " row-update tasks started, " + std::to_string(en) + " ended, " + std::to_string(info.before.size()) + " rows contain the entering variable");
+    qx::L expr = toL(info.expr);
+    std::map<smt::var, std::set<smt::var>> watched_by; // row (basic variable) -> variables whose watch list contains it
+    for (auto &w : info.watching)
+      for (auto r : w.second) watched_by[r].insert(w.first);
+    for (size_t i = 0; i < info.before.size(); ++i)
+    {
+      qx::L b = toL(info.before[i].second);
+      mpq_class cc = b.c.count(info.x_j) ? b.c[info.x_j] : mpq_class(0);
+      b.c.erase(info.x_j);
+      qx::L exp = qx::ladd(b, qx::lscale(expr, cc)); // the sequential update: substitute the entering variable by its expression
+      const smt::lin *after = nullptr;
+      for (auto &a : info.after)
+        if (a.first == info.before[i].first) after = &a.second;
+      if (!after) { failures.push_back("a row disappeared during a pivot"); continue; }
+      for (auto &t : after->vars)
+        if (t.second == smt::rational::ZERO) failures.push_back("a row stores a zero coefficient after a pivot");
+      if (!qx::leq(toL(*after), exp))
+        failures.push_back("row of x" + std::to_string(info.before[i].first) + " after the parallel pivot on x" + std::to_string(info.x_j) + " is " + qx::str(toL(*after)) +
+                           " but the sequential update gives " + qx::str(exp));
+      std::set<smt::var> expvars;
+      for (auto &t : exp.c) expvars.insert(t.first);
+      if (watched_by[info.before[i].first] != expvars)
+        failures.push_back("watch lists after the parallel pivot do not match the variables of row x" + std::to_string(info.before[i].first));
+    }
+  }
+#endif
+} // namespace par
 
 namespace
 {
@@ -475,11 +539,28 @@ namespace
   // =====================================================================================================================
   void case_history(pbt::Tape &t, pbt::Result &r, const pbt::Options &o)
   {
+    const std::string &P = o.prop;
+    if (P == "C20")
+    {
+      static const char *ps[] = {"1", "2", "4", "16"};
+      setenv("ORATIO_VERIF_POOL", ps[t.pick(4)], 1);
+    }
     Net n;
     n.res = &r;
     Gen g{t, n, o};
-    const std::string &P = o.prop;
-    bool use_lra = P == "C07" || P == "C08" || P == "C09" || P == "C18";
+    bool use_lra = P == "C07" || P == "C08" || P == "C09" || P == "C18" || P == "C20";
+    if (P == "C20")
+    { // pool size and schedule perturbation are part of the tape; the pool is created with the network
+      r.classes.insert(std::string("pool size ") + getenv("ORATIO_VERIF_POOL"));
+      smt::verif::get_hooks().on_sched = &par::on_sched;
+#ifdef PARALLELIZE
+      smt::verif::get_hooks().on_pivot = &par::on_pivot;
+#endif
+      par::perturb = t.chance(3, 4);
+      par::sched_seed = ((uint64_t)t.raw() << 16) ^ t.raw();
+      par::failures.clear();
+      par::pivots = par::pivots_multi = par::max_tasks = 0;
+    }
     bool use_idl = P == "C07" || P == "C08" || P == "C10" || P == "C18";
     bool use_rdl = use_idl;
     bool use_ov = P == "C07" || P == "C08" || P == "C18";
@@ -590,6 +671,15 @@ namespace
         for (auto &f : own) n.violation(f);
         for (auto &f : c08) n.foreign(f);
       }
+      else if (P == "C20")
+      {
+        std::vector<std::string> own = c09;
+        for (auto &f : par::failures) own.push_back(f);
+        par::failures.clear();
+        for (auto &f : own) n.violation(f);
+        for (auto &f : c07) n.foreign(f);
+        for (auto &f : c08) n.foreign(f);
+      }
       else if (P == "C10")
       {
         std::vector<std::string> own = c10;
@@ -654,7 +744,8 @@ namespace
         else if (w < 8 && use_ov) g.ov_eq();
         else if (w < 9 && use_reified) g.reified();
         else if (w < 10 && (use_idl || use_rdl) && P == "C10") g.dl_dist(use_rdl && (!use_idl || t.flip()));
-        else if (w < 10 && use_lra && P == "C09") g.lra_rel();
+        else if (w < 10 && use_lra && (P == "C09" || P == "C20")) g.lra_rel();
+        else if (w < 14 && P == "C20") g.lra_rel();
         else if (w < 12 && (P == "C10" || P == "C09") && (g.dl_lits.size() + g.lra_lits.size()) >= 2)
         { // implications between theory literals: the SAT side forces a literal the theory may refute in the same round
           std::vector<lit> &pl = P == "C10" ? g.dl_lits : g.lra_lits;
@@ -691,7 +782,7 @@ namespace
               if (n.sat.value(q) == Undefined) { p = q; break; }
           }
           else if (P == "C10" && s != 3 && !g.dl_lits.empty()) { p = g.dl_lits[t.pick(g.dl_lits.size())]; if (t.chance(1, 3)) p = !p; }
-          else if (P == "C09" && s != 3 && !g.lra_lits.empty()) { p = g.lra_lits[t.pick(g.lra_lits.size())]; if (t.chance(1, 3)) p = !p; }
+          else if ((P == "C09" || P == "C20") && s != 3 && !g.lra_lits.empty()) { p = g.lra_lits[t.pick(g.lra_lits.size())]; if (t.chance(1, 3)) p = !p; }
           else if (s == 0 && !g.lra_lits.empty()) { p = g.lra_lits[t.pick(g.lra_lits.size())]; if (t.flip()) p = !p; }
           else if (s == 1 && !g.dl_lits.empty()) { p = g.dl_lits[t.pick(g.dl_lits.size())]; if (t.chance(1, 3)) p = !p; }
           else p = g.any_lit(false);
@@ -782,6 +873,15 @@ namespace
       r.nontrivial = multi_undo;
     else if (P == "C09")
       r.nontrivial = pivoted && (n.n_theory_conflicts > 0 || n.n_theory_lemmas > 0);
+    else if (P == "C20")
+    {
+      r.nontrivial = par::pivots_multi > 0;
+      r.counters["pivots"] = par::pivots;
+      r.counters["pivots_with_parallel_tasks"] = par::pivots_multi;
+      r.counters["schedule_perturbations"] = par::perturbations.load();
+      if (par::max_tasks >= 3) r.classes.insert("pivot with >= 3 parallel row tasks");
+      if (par::perturb) r.classes.insert("perturbed schedule");
+    }
     else if (P == "C10")
       r.nontrivial = (n.n_theory_conflicts > 0 || n.n_theory_lemmas > 0) && (g.idl_pts.size() >= 3 || g.rdl_pts.size() >= 3);
     r.render = n.log.str();
@@ -1664,7 +1764,7 @@ namespace
   {
     pbt::Config c;
     c.default_budget_ms = 20000;
-    c.crash_is_violation = o.prop == "C18";
+    c.crash_is_violation = o.prop == "C18" || o.prop == "C20"; // C20: a ThreadSanitizer report ends the child abnormally
     return c;
   }
 } // namespace
